@@ -316,8 +316,14 @@ Theorem fd_double_close_refuted_thm :
   fd_late fd_fresh [FPipeClosed; FEof] = 1.
 Proof. vm_compute. repeat split. Qed.
 
-(* a protocol error marks the handler closing BEFORE close_initiated runs, whose guard then
-   suppresses the only RequestClose: without a later EOF / failed completion the fd is never closed *)
+(* a protocol error on a live handler submits exactly one Close (close_initiated is not pre-empted any more) *)
+Theorem fd_peer_error_closes_thm s :
+  f_present s = true -> f_closing s = false ->
+  f_close_sqes (fd_step s FPeerErr) = S (f_close_sqes s) /\ f_closing (fd_step s FPeerErr) = true.
+Proof. destruct s as [p c d q k]. cbn. intros -> ->. cbn. split; reflexivity. Qed.
+
+(* the failure class of the old code is still expressible: a handler that is marked closing with no Close
+   submitted and no deadline stays open for ever unless a read / setsockopt completion arrives *)
 Fixpoint no_unguarded (es : list fev) : bool :=
   match es with [] => true | e :: rest => negb (fev_unguarded e) && no_unguarded rest end.
 
@@ -339,8 +345,3 @@ Proof.
   assert (Hnd : e <> FSchedClose true) by (intros ->; cbn in Hdl; discriminate).
   rewrite (fd_stuck_step s e Hp Hc Hd Hz Hu Hnd). apply IH; assumption.
 Qed.
-
-Theorem fd_peer_error_never_closed_refuted_thm : forall es,
-  no_unguarded es = true -> fd_delayed es = false ->
-  f_close_sqes (fd_run fd_fresh (FPeerErr :: es)) = 0 /\ f_present (fd_run fd_fresh (FPeerErr :: es)) = true.
-Proof. intros es H1 H2. cbn [fd_run]. apply fd_stuck; try reflexivity; assumption. Qed.
